@@ -70,6 +70,8 @@ def default_encodings(seed):
     if seed not in _defaults_cache:
         out = []
         for u in cases.fault_units("quick", seed, k=0):
+            if u["variant"] in ("sess0", "sess4", "decrypt-pw", "failed-flag", "two-pairs", "pair-enc", "sess2"):
+                continue  # the cross-type closure uses the basic variants of every root / frame
             c = cases.replay_case(u, seed, ())
             out.append((u["label"], c))
         _defaults_cache[seed] = out
